@@ -136,6 +136,9 @@ Definition e_dispatch (events : list arg) (raising : list nat) : bytes :=
   concat (map (fun '(p, d) => str_N (N.of_nat p) ++ [58%N] ++ show_outcome (Delivered d) ++ [10%N]) (calls s))
   ++ s2l "handler=" ++ str_N (N.of_nat (handler_calls s)).
 
+(* amps in tenths for a list of wattages *)
+Definition e_amps (ws : list arg) : bytes := concat (map (fun a => str_Z (amps_tenths (gz a)) ++ [44%N]) ws).
+
 (* ---- C08 ---- *)
 Definition e_parse_state (kind : N) (resp : bytes) : bytes :=
   match kind with
@@ -295,6 +298,7 @@ Definition dispatch (f : bytes) (a : list arg) : option bytes :=
   else if is_fn f "bcast_encode" then Some (e_bcast_encode (gl (x 0%nat)) (gb (x 1%nat)))
   else if is_fn f "gate_spec" then Some (e_gate_spec (gb (x 0%nat)))
   else if is_fn f "dispatch" then Some (e_dispatch (gl (x 0%nat)) (glnat (x 1%nat)))
+  else if is_fn f "amps" then Some (e_amps (gl (x 0%nat)))
   else if is_fn f "parse_state" then Some (e_parse_state (gn (x 0%nat)) (gb (x 1%nat)))
   else if is_fn f "reply_encode" then Some (e_reply_encode (gn (x 0%nat)) (gl (x 1%nat)) (gb (x 2%nat)))
   else if is_fn f "schedules" then Some (e_schedules (mk_zone (x 0%nat) (x 1%nat)) (gz (x 2%nat)) (gb (x 3%nat)))
